@@ -64,3 +64,61 @@ func Len(ptr any, name string) int {
 	}
 	return -1
 }
+
+// FieldByType returns the struct's field whose type is exactly T, when there is exactly one:
+// robust against renames of the field (the type of a private table rarely changes with its name).
+func FieldByType[T any](ptr any) (t T, ok bool) {
+	rv := reflect.ValueOf(ptr)
+	if rv.Kind() != reflect.Pointer || rv.IsNil() || rv.Elem().Kind() != reflect.Struct {
+		return t, false
+	}
+	want := reflect.TypeOf((*T)(nil)).Elem()
+	st := rv.Elem()
+	found := -1
+	for i := 0; i < st.NumField(); i++ {
+		if st.Field(i).Type() == want {
+			if found >= 0 {
+				return t, false
+			}
+			found = i
+		}
+	}
+	if found < 0 {
+		return t, false
+	}
+	f := st.Field(found)
+	return reflect.NewAt(f.Type(), unsafe.Pointer(f.UnsafeAddr())).Elem().Interface().(T), true
+}
+
+// ReadLock takes the struct's only mutex-like field (a field with Lock/Unlock, preferring
+// RLock/RUnlock when present) and returns the function that releases it. ok is false when the
+// struct has no such field or more than one.
+func ReadLock(ptr any) (unlock func(), ok bool) {
+	rv := reflect.ValueOf(ptr)
+	if rv.Kind() != reflect.Pointer || rv.IsNil() || rv.Elem().Kind() != reflect.Struct {
+		return nil, false
+	}
+	st := rv.Elem()
+	var mu reflect.Value
+	n := 0
+	for i := 0; i < st.NumField(); i++ {
+		f := st.Field(i)
+		if f.Kind() != reflect.Struct || !f.CanAddr() {
+			continue
+		}
+		p := reflect.NewAt(f.Type(), unsafe.Pointer(f.UnsafeAddr()))
+		if p.MethodByName("Lock").IsValid() && p.MethodByName("Unlock").IsValid() {
+			mu = p
+			n++
+		}
+	}
+	if n != 1 {
+		return nil, false
+	}
+	if l, u := mu.MethodByName("RLock"), mu.MethodByName("RUnlock"); l.IsValid() && u.IsValid() {
+		l.Call(nil)
+		return func() { u.Call(nil) }, true
+	}
+	mu.MethodByName("Lock").Call(nil)
+	return func() { mu.MethodByName("Unlock").Call(nil) }, true
+}
